@@ -2609,7 +2609,15 @@ impl<'a> Model<'a> {
         let s = to_rc_format(&parsed_formula);
         let mut formula_index: i32 = -1;
         if let Some(index) = shared_formulas.iter().position(|x| x == &s) {
-            formula_index = index as i32;
+            // A text the parser rejected is stored verbatim and can be equal to the stored
+            // form of a valid formula: share only if both are of the same kind
+            let stored_is_error = matches!(
+                self.parsed_formulas[sheet as usize].get(index),
+                Some((Node::ParseErrorKind { .. }, _))
+            );
+            if stored_is_error == matches!(parsed_formula, Node::ParseErrorKind { .. }) {
+                formula_index = index as i32;
+            }
         }
         if formula_index == -1 {
             shared_formulas.push(s);
